@@ -31,7 +31,7 @@ pub fn compact_alphabet(info: &TypeInfo) -> Vec<Op> {
     }
     let mut v = vec![Op::U32, Op::U64, Op::Fill(3), Op::Fill(9)];
     if info.block_words.is_some() {
-        v.push(Op::Fill(8197)); // bulk request (fast paths for large fills), not a multiple of the word size
+        v.push(Op::FillAt(8197, 1)); // bulk request (fast paths for large fills), not a multiple of the word size, destination not word-aligned
     }
     match info.family {
         Family::Hc128 => v.push(Op::Fill(61)),
@@ -65,6 +65,25 @@ pub fn build_states(makers: &[Box<dyn Maker + '_>], depth: usize) -> Vec<StateRe
                 let mut full = prefix.clone();
                 full.extend(h.iter().cloned());
                 out.push(StateRef { maker: mi, history: full });
+            }
+        }
+        // block generators: every buffer index (with and without a pending half for ISAAC-64), alone and
+        // followed by each single operation — first maker only
+        if let (Some(b), true) = (info.block_words, mi == 0 || makers[mi - 1].info().name != info.name) {
+            if info.family != Family::Core {
+                let mut starts: Vec<(usize, bool)> = (0..=b + 1).map(|w| (w, false)).collect();
+                if info.family == Family::Isaac64 {
+                    starts.extend((0..=b).map(|w| (w, true)));
+                }
+                let singles = all_histories(&alphabet, depth.min(1));
+                for (w, half) in starts {
+                    let prefix = prefix_ops(info, w, half);
+                    for h in &singles {
+                        let mut full = prefix.clone();
+                        full.extend(h.iter().cloned());
+                        out.push(StateRef { maker: mi, history: full });
+                    }
+                }
             }
         }
     }
